@@ -379,6 +379,11 @@ func vfH_dial_logic() {
 		in.urlStr += "?" + in.query
 	}
 	vfHintURL(in.urlStr, &vfURLParts{scheme: in.scheme, host: in.host, path: in.path, rawQuery: in.query, user: ui})
+	if vfParam("realurl", 1) == 1 {
+		// the URL string goes through the real net/url.Parse (executed from its SSA)
+		vfUseReal("net/url.Parse")
+		vfUseRealPkg("net/url")
+	}
 	// reply head and transport
 	rh := http.Header{}
 	order := []string{"Upgrade", "Connection", "Sec-Websocket-Accept", "Sec-Websocket-Extensions", "Sec-Websocket-Protocol"}
